@@ -208,7 +208,7 @@ class SpectralDensity(DFunction, UnitsManaged):
                     
                 elif ftype == "CP29":
                     
-                    self._make_CP29_spectral_density(params, values)
+                    self._make_CP29_spectral_density(prms, values)
                     
                 elif ftype == "Value-defined":
         
